@@ -63,7 +63,7 @@ def gen_tree(rng, depth):
     if r < 0.12:
         return ("neg", ("num", rng.choice(["2.0", "0.76e0", "5.0e-1"])))
     if r < 0.22:
-        return ("call", rng.choice(["exp", "sqrt", "log", "log10"]), gen_tree(rng, depth - 1))
+        return ("call", rng.choice(["exp", "sqrt", "log", "log10", "atan", "acos", "asin", "tanh", "abs"]), gen_tree(rng, depth - 1))
     op = rng.choice(["+", "-", "*", "/", "**", "**"])
     return ("bin", op, gen_tree(rng, depth - 1), gen_tree(rng, depth - 1))
 
@@ -162,6 +162,10 @@ def main(ctx: Ctx) -> int:
     two, three = ("num", "2.0"), ("num", "3.0")
     for w in [("bin", "**", two, ("bin", "**", three, two)), ("neg", ("bin", "**", two, two)), ("bin", "*", ("ab", "H2"), two), ("bin", "*", ("ab", "He"), two),
               ("bin", "*", ("ab", "E"), two), ("bin", "-", ("var", "user_x"), ("bin", "**", three, two)), ("bin", "/", two, ("bin", "/", ("var", "Tgas"), three)),
+              # inverse trigonometric intrinsics keep their names; integer literals divide as integers in Fortran AND in C
+              ("call", "atan", ("bin", "/", ("var", "Tgas"), ("num", "3.e2"))), ("bin", "*", two, ("call", "acos", ("var", "invT"))), ("call", "asin", ("var", "invT")),
+              ("bin", "**", ("var", "Tgas"), ("bin", "/", ("num", "1"), ("num", "2"))), ("bin", "/", ("num", "7"), ("num", "2")),
+              ("bin", "*", ("var", "T32"), ("bin", "/", ("bin", "/", ("num", "7"), ("num", "2")), ("num", "2"))), ("bin", "/", ("var", "Tgas"), ("num", "300")),
               # a leading sign in front of a power whose base is a name / call / abundance / parenthesis: -x**y means -(x**y)
               ("neg", ("bin", "**", ("var", "T32"), two)), ("call", "exp", ("neg", ("bin", "**", ("var", "T32"), two))),
               ("bin", "+", ("neg", ("bin", "**", ("var", "user_x"), two)), three), ("neg", ("bin", "**", ("call", "sqrt", ("var", "Tgas")), three)),
